@@ -467,6 +467,11 @@ func runC09(res *lib.Result, tier string, seed int64, args []string) error {
 				return err
 			}
 		}
+		if wi%6 == 1 {
+			if err := c09CapWorld(res, wi, reps); err != nil {
+				return err
+			}
+		}
 	}
 	return nil
 }
@@ -556,6 +561,57 @@ func c09ProjectMode(res *lib.Result, wi, reps int) error {
 			if first[k] != obs[k] {
 				res.AddViolation("inconsistent-answers", fmt.Sprintf("%s differs between two runs on the same workspace:\n  run 0: %s\n  run %d: %s", k, first[k], rep, obs[k]), caseText, false)
 			}
+		}
+	}
+	return nil
+}
+
+// more equally scored matches than the 200-symbol cap of workspace/symbol: which 200 are answered must not depend on
+// the order in which files and map entries are visited
+func c09CapWorld(res *lib.Result, wi, reps int) error {
+	files := map[string]string{}
+	for f := 0; f < 3; f++ {
+		var ls []string
+		for k := 0; k < 90; k++ {
+			ls = append(ls, fmt.Sprintf("ab%c%03d = %d", 'x'+f, k, k))
+		}
+		files[fmt.Sprintf("cap%d.lua", f)] = strings.Join(ls, "\n") + "\n"
+	}
+	caseText := "three files cap0.lua, cap1.lua, cap2.lua with 90 globals abxNNN / abyNNN / abzNNN each; workspace/symbol \"ab\" (270 equally scored matches, cap 200)"
+	var first string
+	for rep := 0; rep < reps; rep++ {
+		runtime.GOMAXPROCS([]int{1, 2, 16}[rep%3])
+		dir := lib.ScratchDir(fmt.Sprintf("c09c%d", wi))
+		if err := lib.WriteWorkspace(dir, files); err != nil {
+			return err
+		}
+		lib.Breadcrumb("C09 " + caseText)
+		sess, err := lib.StartSession(dir, lib.AllChecksOptions())
+		if err != nil {
+			os.RemoveAll(dir)
+			res.AddViolation("crash-or-timeout", err.Error(), caseText, false)
+			return nil
+		}
+		ws, err := sess.WorkspaceSymbol("ab")
+		sess.Close()
+		os.RemoveAll(dir)
+		if err != nil {
+			res.AddViolation("crash-or-timeout", err.Error(), caseText, false)
+			return nil
+		}
+		var sl []string
+		for _, y := range ws {
+			sl = append(sl, y.Name)
+		}
+		sort.Strings(sl)
+		got := strings.Join(sl, " ")
+		res.Dist("runs.symbol-cap")
+		if rep == 0 {
+			first = got
+			res.Count(caseText+fmt.Sprint(wi), true)
+		} else if got != first {
+			res.AddViolation("inconsistent-answers", fmt.Sprintf("workspace/symbol \"ab\" answers a different set of %d symbols in run %d than in run 0", len(sl), rep), caseText+"\nrun 0: "+first+"\nrun "+fmt.Sprint(rep)+": "+got, false)
+			break
 		}
 	}
 	return nil
